@@ -253,6 +253,8 @@ __ymcw_get_bday(dt_ymcw_t that, dt_bizda_param_t bp)
 	int res;
 
 	switch (that.w) {
+	case DT_MIRACLEDAY:
+		/* Sunday may be spelt 0 in there */
 	case DT_SUNDAY:
 	case DT_SATURDAY:
 		return -1;
